@@ -7,6 +7,15 @@ ENGINES = [
 NOT_APPLICABLE = {}
 _NOTE = 'Trusted base: compiler + sanitizer runtimes, the engine in harness/engine.h, and the independent reference oracle named in the technique (self-tested at every start). Verdict is "held on everything explored", not absence.'
 TEXT = {
+ 'C06': dict(engine='sweep+pbt', design_ref='DESIGN.md 5/C06',
+   technique='exhaustive sweep + property-based testing with an independent strict MessagePack decoder and an independently derived expected tree',
+   level_text='Every 8/16-bit integer of every integer type and every format threshold is written and decoded by an independent spec decoder; ~4*10^4 generated typed values per quick run (87 model types) must decode to exactly the independently derived data model (member order, counts, bin for bytes, Timestamp with 0 <= ns < 10^9), use the most compact format at every node, and be byte-identical from memory and stream.',
+   level_note=_NOTE),
+ 'C07': dict(engine='pbt', design_ref='DESIGN.md 5/C07',
+   technique='differential property-based testing: independent encoder with adversarial format choice -> library reader vs independent reference decoder; truncation and byte corruption',
+   level_text='~5*10^4 documents per quick run are produced by an independent encoder that picks any legal format per node and any key order, and loaded through both readers into typed targets and arbitrary-shape trees (IsEnd-driven arrays): the delivered value must equal what the specification assigns; strict prefixes must be rejected with a SerializationException; after a single-byte corruption the loader must deliver exactly what the reference decoder reads from the corrupted bytes, or reject.',
+   level_note=_NOTE),
+
  'C01': dict(engine='pbt', design_ref='DESIGN.md 5/C01',
    technique='property-based round-trip testing over typed models (save -> load -> deep equality, load-save-load fixed point)',
    level_text='~3*10^4 generated (type, value, archive, position, configuration) round trips per quick run over 87 model types instantiating the library own serializers, under ASan/UBSan: the loaded value must equal the saved one bit for bit, neighbouring members must be intact, re-saving must be a fixed point (byte-identical for MsgPack); a save may only fail with an exception. Exploration: the value space is sampled with boundary-biased generators.',
